@@ -43,8 +43,9 @@ ASSUMPTIONS = [
     "that is consistently wrong about what a query selects stays silent here (that is C01-C13/C15 territory)",
     "registration is additive (new names only): the library binds function names at evaluation time by design",
     "the outcome of the operation inside which an injected fault fired is not judged; every later operation is",
-    "on nondeterministic environments only the multiset of nodes is compared (ordering is C17's business) and "
-    "max_recursion_depth stays >= 100 (the boundary is C18's business)",
+    "on nondeterministic environments only the multiset of nodes is compared (ordering is C17's business); where the "
+    "solitary run ends in an exception (a small max_recursion_depth) only the exception class is compared, not the "
+    "nodes delivered before it",
     "exception classes are compared, messages are not",
 ]
 COMPONENTS = {
@@ -367,6 +368,8 @@ def gen_history(rng, faults: bool) -> Dict[str, Any]:
             attrs: Dict[str, Any] = {}
             if rng.random() < 0.35:
                 attrs["nondeterministic"] = True
+                if rng.random() < 0.3:
+                    attrs["max_recursion_depth"] = rng.choice((2, 3, 5))
             elif rng.random() < 0.5:
                 attrs["max_recursion_depth"] = rng.choice((2, 3, 5, 100))
             if rng.random() < 0.3:
@@ -418,13 +421,52 @@ def gen_history(rng, faults: bool) -> Dict[str, Any]:
     typed_at = rng.randrange(nops) if rng.random() < 0.12 else -1
     recycle_at = rng.randrange(nops) if rng.random() < 0.12 else -1
     broken_at = rng.randrange(nops) if rng.random() < 0.25 else -1
+    family_at = rng.randrange(nops) if rng.random() < 0.15 else -1
     ngen = 0
     for k in range(nops):
+        if k == family_at:
+            # an inheritance chain: setup_function_extensions() is written once in a base class and
+            # driven by class attributes its subclasses override (other functions, other types under
+            # one name, built-ins dropped).  Each member of the family, created in this process next
+            # to its siblings, must behave as it does alone
+            fam = f"F{k}"
+            name = rng.choice(FNAMES)
+            rets = ["V", "L", "N"]
+            rng.shuffle(rets)
+            uses = {"V": "$[?{n}(@.a) == 1]", "L": "$[?{n}(@.a)]", "N": "$[?count({n}(@.a)) > 0]"}
+            members = []
+            for j in range(rng.choice((2, 2, 3))):
+                eid = f"g{ngen}"
+                ngen += 1
+                spec = {"family": fam, "funcs": []}
+                kind = rng.random()
+                ret = None
+                if kind < 0.7:
+                    ret = rets[j % 3]
+                    spec["setup"] = [[name, {"args": [rng.choice(("V", "N"))], "ret": ret, "behav": rng.choice(("first", "shape", "const"))}]]
+                if rng.random() < 0.5:
+                    spec["drop"] = rng.sample(["match", "search", "length", "count", "value"], rng.choice((1, 2)))
+                if rng.random() < 0.3:
+                    spec["attrs"] = {"max_recursion_depth": rng.choice((3, 5, 100))}
+                ops.append({"op": "new_env", "id": eid, "spec": copy.deepcopy(spec)})
+                members.append((eid, ret))
+            probes = [uses[r].format(n=name) for r in ("V", "L", "N")] + ["$[?length(@.a) == 1]", "$[?match(@.a, 'a')]", "$[?count(@.*) > 0]", "$[?search(@.b, 'b')]", "$[?value(@.a) == 1]"]
+            order = [(e, q) for e, _r in members for q in rng.sample(probes, rng.choice((2, 3, 4)))]
+            rng.shuffle(order)
+            for e, q in order:
+                cid = f"c{len(compiled)}"
+                ops.append({"op": "compile", "id": cid, "env": e, "q": q})
+                compiled.append(cid)
+                if rng.random() < 0.4:
+                    ops.append({"op": "apply", "c": cid, "doc": rng.choice(docs), "entry": "find"})
+            continue
         if k == broken_at:
             # compiles that FAIL at some point inside a query, each followed by a compile of the
             # intact text on the same environment (and by its use): whatever the lexer or parser had
             # in hand when it gave up must not turn up in the next query
             q = rng.choice(RICH_QUERIES) if rng.random() < 0.7 else rng.choice(qpool)
+            if len(q) < 4:
+                q = rng.choice(RICH_QUERIES)
             e = rng.choice(envs)
             did = f"d{len(docs)}"
             ops.append({"op": "new_doc", "id": did, "spec": {"json": {"b": 1, "a'b": 2, "a\"b": 3, "a": {"a": "x\ny", "b": "b", "bb": 4}, "ab": 5, "\U0001f600": 6, "c": ["bb", "q", {"a": "qq", "b": "\u00e9\t"}]}}})
